@@ -60,6 +60,22 @@ def axis_columns(chk):
             found[tags[0]] = comp[v]
             if comp[v] != ('Min', 'Mid', 'Maj').index(tags[0]):
                 problems.append(f'line {n.lineno}: the {tags[0]} column receives component #{comp[v]} ({v}) of (minor, middle, major)')
+    # the table-driven spelling: for which, axis in zip(('Min', 'Mid', 'Maj'), <the decoded triple>): columns[<name with which>] = axis
+    for lp in [n for n in ast.walk(ld) if isinstance(n, ast.For)]:
+        it = lp.iter
+        if isinstance(it, ast.Call) and dotted(it.func) == 'zip' and len(it.args) == 2 and isinstance(it.args[0], ast.Tuple) and isinstance(lp.target, ast.Tuple) \
+                and len(lp.target.elts) == 2 and all(isinstance(e, ast.Name) for e in lp.target.elts) and all(isinstance(e, ast.Constant) for e in it.args[0].elts):
+            tags_ = [e.value for e in it.args[0].elts]
+            whole = isinstance(it.args[1], ast.Name) and len(un) == 1 and isinstance(un[0].targets[0], ast.Name) and un[0].targets[0].id == it.args[1].id
+            trip = isinstance(it.args[1], ast.Tuple) and [unparse(e) for e in it.args[1].elts]
+            stores_ = [n for n in ast.walk(lp) if isinstance(n, ast.Assign) and isinstance(n.targets[0], ast.Subscript) and unparse(n.value) == lp.target.elts[1].id]
+            if stores_ and (whole or trip):
+                for i_, tg_ in enumerate(tags_):
+                    comp_i = i_ if whole else comp.get(trip[i_]) if i_ < len(trip) else None
+                    if tg_ in ('Min', 'Mid', 'Maj'):
+                        found[tg_] = comp_i
+                        if comp_i != ('Min', 'Mid', 'Maj').index(tg_):
+                            problems.append(f'line {lp.lineno}: in the zipped table the {tg_} column receives component #{comp_i} of (minor, middle, major)')
     if problems:
         chk.refuted('C18-R6', CAT, 'CompaSOHaloCatalog._setup_halo_field_loaders.eigvecs_loader', 'Min <- minor, Mid <- middle, Maj <- major', '; '.join(problems[:3]) +
                     ': the column delivers another axis of the code than its name says (still a unit vector of an orthonormal triad, so nothing looks wrong)', node=ld)
